@@ -254,7 +254,7 @@ add("C15",
     "sroFresh_congr), C15_agree / C15_present (namesAndDescriptions(all=True) binds every name exactly as get does; present iff some member of __iro__ defines it), "
     "C15_tags / C15_tag_first, C15_invariants (every invariant along __iro__ runs in order; all failures collected, first raised), C15_follow (= C02_fresh), "
     "C15_pinned_violates (README diamond, kernel-checked); setTaggedValue on a LIVE interface (model op setTag, stream op settag): C15_settag_listed / C15_settag_resolves "
-    "(every interface with the tagged one in its __iro__ lists and resolves the new tag at once, in every state), C15_settag_other / C15_settag_unrelated / setTag_get. "
+    "(every interface with the tagged one in its __iro__ lists and resolves the new tag at once, in every state; C15_settag_history: after ANY history that interleaves setTaggedValue calls with creations, re-basings and lookups — WOp.setTag is an operation of C15_get_history), C15_settag_other / C15_settag_unrelated / setTag_get. "
     "The model with memo is compared with both twins on re-basing histories with warmed memos; all accessors "
     "are cross-checked on the real objects and judged against the statement on an __iro__ computed by CPython's own MRO from the current bases.",
     "Guards: G-acyclic, duplicate-free base lists, the root interface is never re-based.",
